@@ -4,6 +4,7 @@
 import OFV.Driver.Core
 import OFV.Model.All
 import OFV.Gen.Structs
+import OFV.Driver.Oracles
 namespace OFV.Driver.OF
 open OFV OFV.Driver OFV.Go OFV.Model
 
@@ -29,7 +30,13 @@ def observe (v : V) : String :=
       | r => showR (fun _ => "") r
     | r => showR (fun _ => "") r
 
-def enc : Handler := fun args _ =>
+/-- property oracles on the implementation's observation of a value -/
+def valueOracles (impl : String) (wantType : Option Nat) : List (String × String) :=
+  match Oracles.parseObs impl with
+  | some o => Oracles.c06 o ++ Oracles.c01 o wantType ++ Oracles.c02 o ++ Oracles.c02elem o
+  | none => []
+
+def enc : Handler := fun args impl =>
   match args with
   | [t] => match V.ofText t with
     | some v => { model := observe v }
@@ -217,9 +224,40 @@ def runProg (src : String) : String :=
       | .obs out => out
   go [] 0 stmts
 
+/-- message type implied by the constructor that built the observed variable (header-only messages) -/
+def ctorType : List (String × Nat) :=
+  [("NewEchoRequest", 2), ("NewEchoReply", 3), ("NewConfigRequest", 7), ("NewFeaturesRequest", 5),
+   ("NewHello", 0), ("NewFlowMod", 14), ("NewGroupMod", 15), ("NewPacketOut", 13), ("NewPortMod", 16),
+   ("NewSetConfig", 9), ("NewSetControllerID", 4), ("NewTLVTableModMessage", 4), ("NewTLVTableRequest", 4),
+   ("NewBundleControl", 4), ("NewBundleAdd", 4), ("NewNXTVendorHeader", 4)]
+
+def wantTypeOf (src : String) : Option Nat :=
+  let stmts := (src.splitOn ";").filter (· ≠ "")
+  match stmts.getLast? with
+  | some last =>
+    if last.startsWith "!" then
+      let v := (last.drop 1).toString
+      -- the last assignment `v=Ctor(` to that variable
+      (stmts.filterMap (fun st =>
+        if st.startsWith (v ++ "=") then
+          let rhs := (st.drop (v.length + 1)).toString
+          match rhs.splitOn "(" with
+          | name :: _ :: _ => ctorType.lookup name
+          | _ => none
+        else none)).getLast?
+    else none
+  | none => none
+
+/-- `prog`: model-vs-implementation correspondence only (arguments may be arbitrary) -/
 def prog : Handler := fun args _ => { model := runProg ("".intercalate args) }
 
+/-- `api`: the same program syntax, used by the generators of VALID API histories (in-range arguments, finished
+    children, affine use): the property oracles C01/C02/C06 are evaluated on the implementation's observation -/
+def api : Handler := fun args impl =>
+  let src := "".intercalate args
+  { model := runProg src, more := valueOracles impl (wantTypeOf src) }
+
 def handlers : List (String × Handler) :=
-  [("enc", enc), ("dec", dec), ("decc", decc), ("fn", fn), ("prog", prog)]
+  [("enc", enc), ("dec", dec), ("decc", decc), ("fn", fn), ("prog", prog), ("api", api)]
 
 end OFV.Driver.OF
